@@ -315,6 +315,7 @@ def proto_form(p):
     """What the schema of a node constrains: operator, attribute names/kinds, arities."""
     return {"op": p.op_type, "domain": "" if p.domain == "ai.onnx" else p.domain,
             "attrs": sorted((a.name, int(a.type)) for a in p.attribute),
+            "vals": sorted((a.name, a.SerializeToString().hex()) for a in p.attribute),
             "n_in": len(p.input), "n_out": len(p.output)}
 
 
@@ -449,7 +450,7 @@ def compare(real, m, mismatches):
                 if pr:
                     mismatches.append(("converter", f"{rec['op']} -> {tgt}: emitted {fm['op']} {pr[0]}"))
             if forms and "mustChange" in e:
-                changed = (forms[0]["attrs"], forms[0]["n_in"]) != (rec["orig_form"]["attrs"], rec["orig_form"]["n_in"])
+                changed = (forms[0]["vals"], forms[0]["n_in"]) != (rec["orig_form"]["vals"], rec["orig_form"]["n_in"])
                 if e["mustChange"] and not changed:
                     mismatches.append(("converter", f"{rec['op']} -> {tgt}: form unchanged although the old form is not accepted at the target"))
     if real["complete"]:
@@ -838,6 +839,10 @@ def targeted_programs():
                         st("g", "identity", 21, ["f"])], "outs": ["g", "f"]})
     P.append({"nodes": [{"id": "a", "op": "inline", "model": {"kind": "ml_only", "mlv": 2}, "args": ["x"]},
                         st("b", "rmean", 17, ["a"], axis=1), st("c", "identity", 19, ["b"])], "outs": ["c"]})
+    # every operator whose schema changed between 17 and 21, written against an old module, next to a newer one
+    for k, opn in enumerate(sorted(L.ORT_MACROS)):
+        for src, (top, tmv) in ((17, ("identity", 21)), (18, ("isnan_w", 20)), (19, ("identity", 21))):
+            P.append({"nodes": [st("a", opn, src, ["x"]), st("b", top, tmv, ["a"])], "outs": ["b"]})
     # a function body alone carries the model's maximum; a convertible node sits in a body elsewhere
     for hi, (pop, pmv) in ((21, ("identity", 21)), (19, ("identity", 19)), (18, ("pad", 18))):
         P.append({"nodes": [{"id": "f", "op": "func", "name": f"fhi{hi}", "params": ["p"], "args": ["y"],
